@@ -30,7 +30,11 @@ func calcFunctionsWhenEmpty(c *Ctx) map[*ssa.Function]string {
 			if callee := x.Call.StaticCallee(); callee != nil && callee.Blocks != nil {
 				for _, b := range callee.Blocks {
 					if ret, ok := b.Instrs[len(b.Instrs)-1].(*ssa.Return); ok && len(ret.Results) == 1 {
-						if mc, ok := ret.Results[0].(*ssa.MakeClosure); ok {
+						rv0 := ret.Results[0]
+						if ct, ok := rv0.(*ssa.ChangeType); ok {
+							rv0 = ct.X
+						}
+						if mc, ok := rv0.(*ssa.MakeClosure); ok {
 							if f, ok := mc.Fn.(*ssa.Function); ok {
 								return f
 							}
